@@ -338,6 +338,7 @@ class Machine:
                     r_ = z3.BitVecVal(0, opw)
                     for i in range(opw): r_ = z3.If(z3.Extract(i, i, v) == 1, z3.BitVecVal(i, opw), r_)
                     s.div_checks.append((s.rip, bv(v, opw) != 0))     # bsr of zero leaves the destination undefined
+                    if getattr(s, 'bsr_hook', None): r_ = s.bsr_hook(r_)
                 s.wr(reg, r_, opw); s.undef_flags(); return done()
             if op2 in (0x18, 0x0D, 0x1F):
                 reg, m = modrm()
@@ -421,6 +422,7 @@ class Machine:
             res = arith('add', a, b, w); s.flags_add(a, b, res, w); return res
         if kind == 'test':
             res = arith('and', a, b, w); s.flags_logic(res, w); return res
+        if kind == 'xor' and not is_c(a) and not is_c(b) and a.eq(b): s.flags_logic(0, w); return 0
         res = arith(kind, a, b, w); s.flags_logic(res, w); return res
 
     # ---------- running
